@@ -12,6 +12,7 @@ import (
 	"go/types"
 	"runtime/debug"
 	"slices"
+	"strings"
 
 	"golang.org/x/tools/go/ssa"
 )
@@ -48,6 +49,7 @@ type frame struct {
 	panic            interface{}
 	phitemps         []value
 	curPos           token.Pos
+	phisDone         bool
 }
 
 func (fr *frame) get(key ssa.Value) value {
@@ -81,6 +83,9 @@ func (fr *frame) pos() string {
 }
 
 func (fr *frame) tpanic(msg string) {
+	if fr.m.spec > 0 {
+		panic(specAbort{"panic: " + msg})
+	}
 	panic(targetPanic{v: rtErr(msg), pos: fr.pos()})
 }
 
@@ -90,7 +95,7 @@ func (fr *frame) runDefer(d *deferred) {
 		if !ok {
 			r := recover()
 			switch r.(type) {
-			case pathKill, pathDead, pathAbort, engineError:
+			case pathKill, pathDead, pathAbort, engineError, specAbort:
 				panic(r)
 			}
 			fr.panicking = true
@@ -202,16 +207,27 @@ func (fr *frame) visitInstr(instr ssa.Instruction) bool /*returned*/ {
 		fr.runDefers()
 
 	case *ssa.Panic:
+		m.noSpec("panic")
 		panic(targetPanic{v: fr.get(instr.X), pos: fr.pos()})
 
 	case *ssa.Send:
+		m.noSpec("send")
 		ch, _ := fr.get(instr.Chan).(*chanObj)
 		m.sched.send(fr.g, ch, fr.get(instr.X))
 
 	case *ssa.Store:
+		m.noSpec("store")
 		fr.store(mustDeref(instr.Addr.Type()), fr.get(instr.Addr), fr.get(instr.Val))
 
 	case *ssa.If:
+		if cond := fr.get(instr.Cond).(*Term); !cond.IsConst() {
+			if _, known := m.pcKnow[cond]; !known && fr.tryMerge(cond) {
+				if fr.block == nil {
+					return true
+				}
+				return false
+			}
+		}
 		succ := 1
 		if m.branch(fr.get(instr.Cond).(*Term)) {
 			succ = 0
@@ -222,10 +238,12 @@ func (fr *frame) visitInstr(instr ssa.Instruction) bool /*returned*/ {
 		fr.prevBlock, fr.block = fr.block, fr.block.Succs[0]
 
 	case *ssa.Defer:
+		m.noSpec("defer")
 		fn, args := fr.prepareCall(&instr.Call)
 		fr.defers = &deferred{fn: fn, args: args, instr: instr, tail: fr.defers}
 
 	case *ssa.Go:
+		m.noSpec("go")
 		fn, args := fr.prepareCall(&instr.Call)
 		pos := instr.Pos()
 		m.sched.spawn(func(g *G) {
@@ -335,6 +353,7 @@ func (fr *frame) visitInstr(instr ssa.Instruction) bool /*returned*/ {
 		fr.env[instr] = fr.lookup(instr, fr.get(instr.X), fr.get(instr.Index))
 
 	case *ssa.MapUpdate:
+		m.noSpec("map update")
 		mo, _ := fr.get(instr.Map).(*mapObj)
 		if mo == nil {
 			fr.tpanic("assignment to entry in nil map")
@@ -468,6 +487,9 @@ func (m *Machine) callSSA(caller *frame, g *G, callpos token.Pos, fn *ssa.Functi
 	fr := &frame{m: m, g: g, caller: caller, fn: fn, curPos: callpos}
 	if fn.Parent() == nil {
 		if ic := m.p.intercept(fn); ic != nil && !(m.rawCRC && fn.Pkg != nil && fn.Pkg.Pkg.Path() == crcPkgPath) {
+			if m.spec > 0 && !pureIntercept(fn) {
+				panic(specAbort{"call of " + fn.String()})
+			}
 			return ic(fr, args)
 		}
 		if !m.p.interpreted(fn) {
@@ -516,7 +538,7 @@ func (fr *frame) runFrame() {
 		}
 		r := recover()
 		switch r.(type) {
-		case pathKill, pathDead, pathAbort, engineError:
+		case pathKill, pathDead, pathAbort, engineError, specAbort:
 			panic(r)
 		case targetPanic:
 		default:
@@ -554,6 +576,14 @@ func zeroResults(fn *ssa.Function) value {
 }
 
 func (fr *frame) executePhis() []ssa.Instruction {
+	if fr.phisDone {
+		fr.phisDone = false
+		for i, instr := range fr.block.Instrs {
+			if _, ok := instr.(*ssa.Phi); !ok {
+				return fr.block.Instrs[i:]
+			}
+		}
+	}
 	firstNonPhi := -1
 	for i, instr := range fr.block.Instrs {
 		if _, ok := instr.(*ssa.Phi); !ok {
@@ -604,7 +634,7 @@ func (m *Machine) panicText(v value) string {
 		}
 		if i.t != nil {
 			// error values: try Error()
-			if f := m.p.prog.LookupMethod(i.t, nil, "Error"); f != nil {
+			if f := m.p.findMethod(i.t, "Error"); f != nil {
 				return "panic(error of type " + i.t.String() + ")"
 			}
 		}
@@ -635,4 +665,242 @@ func (m *Machine) runMain() {
 	if s.engineErr != "" {
 		panic(engineError{s.engineErr})
 	}
+}
+
+// pureIntercept: environment models without side effects, callable while an
+// arm is executed speculatively.
+func pureIntercept(fn *ssa.Function) bool {
+	switch fn.String() {
+	case "fmt.Sprintf", "fmt.Sprint", "fmt.Sprintln", "fmt.Errorf",
+		"github.com/goblimey/go-crc24q/crc24q.Hash", "encoding/hex.Dump",
+		"strings.Contains", "strings.HasPrefix",
+		"(time.Time).In", "(time.Time).UTC", "(time.Time).Add", "(time.Time).Sub", "(time.Time).AddDate",
+		"(time.Time).Weekday", "(time.Time).Format", "(time.Time).Equal", "(time.Time).Before",
+		"(time.Time).After", "(time.Time).IsZero", "(time.Duration).Milliseconds":
+		return true
+	}
+	switch fn.Name() {
+	case "verifAnd", "verifOr", "verifImplies", "verifIteU64", "verifIteInt", "verifStrEq", "verifBytesEq",
+		"verifTier", "verifTimeOf", "verifTimeNs":
+		return fn.Pkg != nil && strings.HasPrefix(fn.Pkg.Pkg.Path(), repoModule)
+	}
+	return false
+}
+
+func (m *Machine) noSpec(what string) {
+	if m.spec > 0 {
+		panic(specAbort{what})
+	}
+}
+
+// ---------------------------------------------------------------- merging
+
+// specArm executes the straight-line block b speculatively (no forks, no
+// stores, no panics, no visible operations; calls are allowed and run under
+// the same restrictions).  It returns how the arm ends: with a Jump (the
+// successor block) or a Return (its result).  ok=false: the arm cannot be
+// merged.
+func (fr *frame) specArm(b *ssa.BasicBlock) (next *ssa.BasicBlock, ret value, isRet bool, ok bool) {
+	m := fr.m
+	if len(b.Preds) != 1 {
+		return nil, nil, false, false
+	}
+	saveInstr := m.nInstr
+	m.spec++
+	defer func() {
+		m.spec--
+		if r := recover(); r != nil {
+			if _, isSpec := r.(specAbort); isSpec {
+				m.nInstr = saveInstr
+				ok = false
+				return
+			}
+			panic(r)
+		}
+	}()
+	for _, instr := range b.Instrs {
+		switch instr := instr.(type) {
+		case *ssa.Phi:
+			fr.env[instr] = fr.get(instr.Edges[0])
+		case *ssa.Jump:
+			return b.Succs[0], nil, false, true
+		case *ssa.Return:
+			switch len(instr.Results) {
+			case 0:
+				return nil, nil, true, true
+			case 1:
+				return nil, fr.get(instr.Results[0]), true, true
+			default:
+				var res tuple
+				for _, r := range instr.Results {
+					res = append(res, fr.get(r))
+				}
+				return nil, res, true, true
+			}
+		case *ssa.If, *ssa.RunDefers:
+			return nil, nil, false, false
+		default:
+			save := fr.block
+			if fr.visitInstr(instr) {
+				return nil, nil, false, false
+			}
+			fr.block = save
+		}
+	}
+	return nil, nil, false, false
+}
+
+// mergeVal joins two values under a condition, when possible.
+func (m *Machine) mergeVal(c *Term, a, b value) (value, bool) {
+	switch x := a.(type) {
+	case *Term:
+		y, ok := b.(*Term)
+		if !ok || x.kind != y.kind || x.w != y.w {
+			return nil, false
+		}
+		if x.kind == KFP && x != y {
+			return nil, false // floating-point values are never merged: forking keeps them concrete or syntactic
+		}
+		return m.st().Ite(c, x, y), true
+	case tuple:
+		y, ok := b.(tuple)
+		if !ok || len(x) != len(y) {
+			return nil, false
+		}
+		r := make(tuple, len(x))
+		for i := range x {
+			v, ok := m.mergeVal(c, x[i], y[i])
+			if !ok {
+				return nil, false
+			}
+			r[i] = v
+		}
+		return r, true
+	case nil:
+		return nil, b == nil
+	case string:
+		if y, ok := b.(string); ok && x == y {
+			return x, true
+		}
+	case *value:
+		if y, ok := b.(*value); ok && x == y {
+			return x, true
+		}
+	case timeVal:
+		if y, ok := b.(timeVal); ok {
+			return timeVal{m.st().Ite(c, x.ns, y.ns)}, true
+		}
+	case iface:
+		if y, ok := b.(iface); ok && x.t == nil && y.t == nil {
+			return x, true
+		}
+	}
+	return nil, false
+}
+
+// tryMerge handles "if cond" without forking when both arms are pure
+// straight-line code that rejoin at once (diamond or triangle) or both
+// return.  On success fr.block is the join block with its phis evaluated
+// (or nil after a merged return).
+func (fr *frame) tryMerge(cond *Term) bool {
+	m := fr.m
+	if m.noMerge || fr.defers != nil {
+		return false
+	}
+	cur := fr.block
+	T, F := cur.Succs[0], cur.Succs[1]
+	if T == F {
+		return false
+	}
+	type arm struct {
+		from  *ssa.BasicBlock // predecessor of the join on this side
+		next  *ssa.BasicBlock
+		ret   value
+		isRet bool
+	}
+	run := func(b, other *ssa.BasicBlock) (arm, bool) {
+		// triangle: this side goes straight to the other successor
+		if len(b.Preds) != 1 {
+			return arm{from: cur, next: b}, b == other || true
+		}
+		next, ret, isRet, ok := fr.specArm(b)
+		if !ok {
+			return arm{}, false
+		}
+		return arm{from: b, next: next, ret: ret, isRet: isRet}, true
+	}
+	var at, af arm
+	var ok bool
+	switch {
+	case len(T.Preds) == 1 && len(F.Preds) == 1:
+		if at, ok = run(T, F); !ok {
+			return false
+		}
+		if af, ok = run(F, T); !ok {
+			return false
+		}
+	case len(T.Preds) == 1: // F is the join
+		if at, ok = run(T, F); !ok {
+			return false
+		}
+		af = arm{from: cur, next: F}
+	case len(F.Preds) == 1: // T is the join
+		if af, ok = run(F, T); !ok {
+			return false
+		}
+		at = arm{from: cur, next: T}
+	default:
+		return false
+	}
+	if at.isRet != af.isRet {
+		return false
+	}
+	if at.isRet {
+		v, ok := m.mergeVal(cond, at.ret, af.ret)
+		if !ok {
+			return false
+		}
+		fr.result = v
+		fr.block = nil
+		m.merges++
+		return true
+	}
+	if at.next != af.next || at.next == nil {
+		return false
+	}
+	J := at.next
+	it, jf := -1, -1
+	for i, p := range J.Preds {
+		if p == at.from {
+			it = i
+		}
+		if p == af.from {
+			jf = i
+		}
+	}
+	if it < 0 || jf < 0 || it == jf {
+		return false
+	}
+	// evaluate J's phis as ite(cond, then-edge, else-edge)
+	var phis []*ssa.Phi
+	var vals []value
+	for _, instr := range J.Instrs {
+		phi, isPhi := instr.(*ssa.Phi)
+		if !isPhi {
+			break
+		}
+		v, ok := m.mergeVal(cond, fr.get(phi.Edges[it]), fr.get(phi.Edges[jf]))
+		if !ok {
+			return false
+		}
+		phis = append(phis, phi)
+		vals = append(vals, v)
+	}
+	for i, phi := range phis {
+		fr.env[phi] = vals[i]
+	}
+	fr.prevBlock, fr.block = at.from, J
+	fr.phisDone = true
+	m.merges++
+	return true
 }
